@@ -1414,7 +1414,7 @@ def _map_into_values(I, a, ci, dt):
     return MapIter(Ref(Cell(a[0]), ()), order_for(I, a[0]), 0, 'into_values')
 
 
-@reg('Iterator::next')
+@reg('Iterator::next', 'StreamingIterator::next', 'StreamingIteratorMut::next_mut')
 def _iter_next(I, a, ci, dt):
     r = a[0]
     v = I.load(r)
